@@ -2,7 +2,7 @@
 // labels: put.* store.parents.* store.get_exact.* store.prefixes_of.* store.parent_iterator.* store.remove_prefix_filtered.* store.entry_put.records-row
 // tier: quick
 // bound: one author per sequence, keys over {"", a, ab, b, [61 ff], [62]}, two timestamps, entries and deletion markers; every sequence of up to
-// three distinct entries in every order. Checks C02: the final state is the same for every order and equals the reference
+// three distinct entries in every order (thorough tier: up to four). Checks C02: the final state is the same for every order and equals the reference
 // (an entry is held iff no other offered entry of the same author at its key or a prefix of it is >= it).
 #[cfg(test)]
 mod verif_rp_c02_order {
@@ -69,8 +69,10 @@ mod verif_rp_c02_order {
         for k in &keys { for ts in [1u64, 2] { for marker in [false, true] { univ.push(E { key: k.clone(), ts, marker }); } } }
         let n = univ.len();
         let mut cases = 0usize;
-        for i in 0..n { for j in i..n { for k in j..n {
-            let mut set = vec![univ[i].clone(), univ[j].clone(), univ[k].clone()];
+        // thorough tier (VERIF_BX_DEPTH=thorough): sequences of up to four entries
+        let deep = std::env::var("VERIF_BX_DEPTH").map(|v| v == "thorough").unwrap_or(false);
+        for i in 0..n { for j in i..n { for k in j..n { for l in (if deep { k..n } else { k..k + 1 }) {
+            let mut set = vec![univ[i].clone(), univ[j].clone(), univ[k].clone(), univ[l].clone()];
             set.sort(); set.dedup();
             // two entries at the same key with equal (ts, hash) are the same entry for the value order; skip same key+ts with different markers only when values tie
             let want = reference(&set);
@@ -79,7 +81,7 @@ mod verif_rp_c02_order {
                 cases += 1;
                 assert_eq!(got, want, "WITNESS offering {:?} in this order leaves {:?}, expected (any order) {:?}", p, got, want);
             }
-        } } }
+        } } } }
         println!("c02_order: {cases} sequences checked");
     }
 }
